@@ -95,7 +95,7 @@ fn canon_of<T: Message>(v: &T) -> String {
     }
 }
 
-struct Recode<'a> { proto: Proto, input: &'a [u8], o: &'a mut Oracle, out: String, keep: bool }
+struct Recode<'a> { proto: Proto, input: &'a [u8], o: &'a mut Oracle, out: String, keep: bool, rt: bool }
 impl<'a> Action for Recode<'a> {
     fn run<T: Message + Debug + 'static>(&mut self, _d: Option<fn() -> T>) {
         let (r, rem) = decode_with::<T>(self.proto, self.input);
@@ -119,6 +119,7 @@ impl<'a> Action for Recode<'a> {
                         let shown = if r.err.is_none() && r.rem == 0 { Val::of_sexp(&Sexp::parse_line(&r.items[0]).unwrap()[0]).map(|v| canon(&v).sexp()).unwrap_or_default() } else { format!("raw:{}", hex(&b)) };
                         // the same value must round trip through the other protocols (C02).  The reference is the value's own
                         // binary round trip, not the value: an absent optional field with an IDL default legitimately comes back filled.
+                        if !self.rt { self.out = format!("ok {} rem={}", shown, rem); return; }
                         let reference = match decode_with::<T>(Proto::Bin, &b) { (Ok(vb), 0) => canon_of(&vb), _ => { self.o.fail("C02", "binary round trip of a decoded value failed or left bytes".into()); shown.clone() } };
                         for &p in all.iter().filter(|p| **p != Proto::Bin) {
                             if let Ok((b2, _)) = encode_with(p, &v) {
@@ -225,7 +226,7 @@ fn exec(verb: &str, items: &[Sexp], o: &mut Oracle) -> Option<String> {
             let (doc, ty) = (doc.to_string(), ty.to_string());
             let h = std::thread::Builder::new().stack_size(kib << 10).spawn(move || {
                 let mut o2 = Oracle { fails: vec![] };
-                let mut act = Recode { proto, input: &input, o: &mut o2, out: String::new(), keep: doc.ends_with('k') };
+                let mut act = Recode { proto, input: &input, o: &mut o2, out: String::new(), keep: doc.ends_with('k'), rt: true };
                 if !dispatch(&doc, &ty, &mut act) { return "unknown-type".to_string(); }
                 act.out
             }).unwrap();
@@ -248,13 +249,13 @@ fn exec(verb: &str, items: &[Sexp], o: &mut Oracle) -> Option<String> {
                           if !act.leaks.is_empty() { o.fail("C19", format!("failed decode of {}::{} under {} leaves heap memory or buffer references behind when the input is cut at {:?}", doc, ty, proto.name(), act.leaks)); }
                           if let Some(c) = act.accepted_prefix { o.fail("C09", format!("strict prefix of length {} of a valid {}::{} encoding is accepted under {}", c, doc, ty, proto.name())); } }
                 "ga" => { let mut act = AsyncDec { proto, input: &input, chunks, o, out: String::new() }; if !dispatch(doc, ty, &mut act) { return Some("unknown-type".into()); } out = act.out; }
-                _ => { let mut act = Recode { proto, input: &input, o, out: String::new(), keep: doc.ends_with('k') }; if !dispatch(doc, ty, &mut act) { return Some("unknown-type".into()); } out = act.out; }
+                _ => { let rt = !items.iter().any(|x| x.atom() == Some("nort")); let mut act = Recode { proto, input: &input, o, out: String::new(), keep: doc.ends_with('k'), rt }; if !dispatch(doc, ty, &mut act) { return Some("unknown-type".into()); } out = act.out; }
             }
             if let Some(e) = expect {
                 let want = match e { Sexp::Atom(s) => s.clone(), l => { let mut s = String::new(); fn p(x: &Sexp, s: &mut String) { match x { Sexp::Atom(a) => s.push_str(a), Sexp::List(l) => { s.push('('); for (i, y) in l.iter().enumerate() { if i > 0 { s.push(' '); } p(y, s); } s.push(')'); } } } p(l, &mut s); s } };
                 let got = if out.starts_with("ok ") { out[3..].rsplit_once(' ').map(|x| x.0.to_string()).unwrap_or_default() } else { out.clone() };
                 let same = got == want || (want == "err" && (got == "err" || got == "depth"));
-                if !same { o.fail(items.iter().rev().next().and_then(|x| x.atom()).filter(|t| t.starts_with('C')).unwrap_or("C02"), format!("emitted {}::{} under {}: got {} want {}", doc, ty, proto.name(), got, want)); }
+                if !same { o.fail(items.iter().rev().filter_map(|x| x.atom()).find(|t| t.starts_with('C') && t.len() == 3).unwrap_or("C02"), format!("emitted {}::{} under {}: got {} want {}", doc, ty, proto.name(), got, want)); }
             }
             Some(out)
         }
